@@ -4,6 +4,7 @@ import (
 	"context"
 	"fmt"
 	"math/big"
+	"runtime"
 	"strings"
 	"sync"
 	"sync/atomic"
@@ -167,6 +168,18 @@ type c35Case struct {
 	attempt  uint64
 	timeout  uint64
 	events   []c35Event
+	// an earlier attempt (number attempt-1) that ran on the SAME done-check
+	// object and timed out, as in the retry loop; nil = fresh object
+	prev *c35Prev
+}
+
+// c35Prev: the earlier attempt. Some of its included members confirmed it
+// validly (attempt number attempt-1), not all, so it ended with a time-out.
+type c35Prev struct {
+	included   []group.MemberIndex
+	confirmers []group.MemberIndex
+	sig        int
+	silentNow  bool // those confirmers send nothing in the attempt under test
 }
 
 func c35Sig(kind int) *tecdsa.Signature {
@@ -344,6 +357,26 @@ func c35GenCase(t *rapid.T, allowForeign bool, standIn bool, st *verifkit.Stats)
 		queues[qid] = evs
 		qid++
 	}
+	silent := map[group.MemberIndex]bool{}
+	if c.attempt >= 2 && rapid.IntRange(0, 2).Draw(t, "reusedObject") > 0 {
+		pv := &c35Prev{sig: rapid.SampledFrom([]int{1, 1, 3}).Draw(t, "earlierSig")}
+		pv.included = append(pv.included, c.included...)
+		if rapid.IntRange(0, 3).Draw(t, "earlierOtherMembers") == 0 {
+			pk := rapid.IntRange(1, c.n).Draw(t, "earlierIncludedCount")
+			pv.included = append([]group.MemberIndex{}, rapid.Permutation(all).Draw(t, "earlierIncluded")[:pk]...)
+		}
+		// a strict subset confirmed the earlier attempt (it timed out)
+		pc := rapid.IntRange(0, len(pv.included)-1).Draw(t, "earlierConfirmers")
+		pv.confirmers = append(pv.confirmers, rapid.Permutation(pv.included).Draw(t, "earlierConfirmerSet")[:pc]...)
+		pv.silentNow = pc > 0 && rapid.Bool().Draw(t, "earlierConfirmersSilentNow")
+		if pv.silentNow {
+			// only the remaining members confirm the attempt under test
+			for _, m := range pv.confirmers {
+				silent[m] = true
+			}
+		}
+		c.prev = pv
+	}
 	var missing group.MemberIndex
 	if plan == "incomplete" {
 		missing = c.included[rapid.IntRange(0, len(c.included)-1).Draw(t, "missingMember")]
@@ -358,6 +391,10 @@ func c35GenCase(t *rapid.T, allowForeign bool, standIn bool, st *verifkit.Stats)
 			sig = rapid.SampledFrom([]int{3, 4}).Draw(t, "oddSig")
 		}
 		var q []c35Event
+		if silent[m] {
+			add()
+			continue
+		}
 		if m == missing {
 			// the missing member sends nothing valid; others may try to stand in
 			switch rapid.IntRange(0, 2).Draw(t, "missingMode") {
@@ -427,7 +464,11 @@ func c35GenCase(t *rapid.T, allowForeign bool, standIn bool, st *verifkit.Stats)
 
 func (c c35Case) String() string {
 	var sb strings.Builder
-	fmt.Fprintf(&sb, "n=%d ops=%v included=%v msg=%d att=%d timeout=%d |", c.n, c.seatOp, c.included, c.message, c.attempt, c.timeout)
+	fmt.Fprintf(&sb, "n=%d ops=%v included=%v msg=%d att=%d timeout=%d", c.n, c.seatOp, c.included, c.message, c.attempt, c.timeout)
+	if c.prev != nil {
+		fmt.Fprintf(&sb, " after-attempt-%d(included=%v confirmed=%v sig%d silent-now=%v)", c.attempt-1, c.prev.included, c.prev.confirmers, c.prev.sig, c.prev.silentNow)
+	}
+	sb.WriteString(" |")
 	for _, e := range c.events {
 		fmt.Fprintf(&sb, " %d:%s", e.sender, e.tag)
 		if e.tag == "ok" || e.tag == "duplicate" || e.tag == "excluded-member-valid" {
@@ -483,6 +524,37 @@ func c35Run(c c35Case, before int, chunk int, pauseEvery bool) c35Outcome {
 		return done
 	}
 
+	if c.prev != nil {
+		// The earlier attempt on the same object: listen, some confirmations,
+		// time-out. Its receiver goroutine must have stopped before the next
+		// listen (in the retry loop many blocks lie in between). The last
+		// message makes the receiver goroutine end right where it asks for the
+		// payload, after signalling: everything it did happens-before the
+		// second listen, so the race detector stays quiet about the hand-over
+		// and meaningful for the attempt under test.
+		prevCtx, cancelPrev := context.WithCancel(context.Background())
+		dc.listen(prevCtx, big.NewInt(c.message), c.attempt-1, c.timeout, append([]group.MemberIndex{}, c.prev.included...))
+		for _, m := range c.prev.confirmers {
+			ch.deliver(toMsg(c35Event{sender: m, keyOf: c.seatOp[m-1], message: c.message, attempt: c.attempt - 1, endBlock: c.timeout, sig: c.prev.sig}))
+		}
+		stopped := make(chan struct{})
+		ch.deliver(&c35Msg{pub: pool[11].pub, payload: &c35OtherPayload{}, onPayload: func() {
+			close(stopped)
+			runtime.Goexit()
+		}})
+		select {
+		case <-stopped:
+		case <-time.After(c35Wait):
+			cancelPrev()
+			return c35Outcome{inconclusive: "receiver of the earlier attempt did not process its messages"}
+		}
+		cancelPrev()
+		// the loop's wait for the earlier attempt ends with the time-out
+		if r, _, err := dc.waitUntilAllDone(prevCtx); err == nil || r != nil {
+			return c35Outcome{violation: fmt.Sprintf("earlier attempt %d: a signature was reported although only %v of its members %v confirmed",
+				c.attempt-1, c.prev.confirmers, c.prev.included)}
+		}
+	}
 	root, cancelRoot := context.WithCancel(context.Background())
 	defer cancelRoot()
 	dc.listen(root, big.NewInt(c.message), c.attempt, c.timeout, append([]group.MemberIndex{}, c.included...))
@@ -561,7 +633,7 @@ func c35Run(c c35Case, before int, chunk int, pauseEvery bool) c35Outcome {
 		}
 	}
 	key := ""
-	if exp.foreign {
+	if exp.foreign && c.prev == nil {
 		key = " [finding-key=" + c35KeyExcluded + "]"
 	}
 	returnedBeforeExpiry := got != nil
@@ -628,6 +700,10 @@ func c35Labels(c c35Case, exp c35Expect) []string {
 		out[0] = "expect:mismatch-error"
 	}
 	out = append(out, fmt.Sprintf("excluded-member-valid:%v", exp.foreign))
+	out = append(out, fmt.Sprintf("object-reused-after-timed-out-attempt:%v", c.prev != nil))
+	if c.prev != nil {
+		out = append(out, fmt.Sprintf("earlier-confirmers-silent-now:%v", c.prev.silentNow))
+	}
 	tags := map[string]bool{}
 	for _, e := range c.events {
 		tags[e.tag] = true
